@@ -108,7 +108,7 @@ def events_for(cls, dt, cross=False):
     for a, vals in spec['extra'].items():
         for v in vals:
             ev.append(('set', a, v))
-        if a in ('ar_order', 'ma_order') and isinstance(vals[-1], int):
+        if a in ('ar_order', 'ma_order') and isinstance(vals[-1], int) and cls != 'pminvar':      # minvar() rejects non-int orders with an explicit TypeError (argument check, not staleness)
             ev.append(('set', a, 'np:%d' % vals[-1]))      # the same order given as a numpy integer (e.g. an element of np.arange)
     sides = ['onesided', 'twosided', 'centerdc', 'default'] if (dt == 'real' and not cross) else ['twosided', 'centerdc', 'default']
     for s in sides:
